@@ -24,6 +24,10 @@ Histories recorded here (every result is judged, none by this file):
   * several generations in ONE process from ONE file path
     (run_samepath_case): the file replaced between the calls, ignore_scaling
     alternating, through the tool's main and volume_file_to_info;
+  * several FILES described in one process through the function API
+    (run_multifile_case) with the functions' default `options` argument or
+    with one caller-owned dictionary re-used for all calls, ignore_scaling
+    differing between the calls;
   * --generate-info run twice on ONE destination with two different volumes
     (run_rerun_case), the destination holding, before the second run, the
     pair of the first run / only its transform.json / only its
@@ -514,6 +518,95 @@ def run_samepath_case(work, steps):
             recs.append({"vol": vol_record(plan, dfacts, ffacts), "req": req_of(sh),
                          "ignore": plan["ignore_scaling"], "via": st["via"],
                          "replaced": st.get("plan") is not None,
+                         "run": {"outcome": res["outcome"], "exit": res["exit"]}, "obs": o})
+            results.append(res)
+        return {"kind": "history", "steps": recs}, results
+    finally:
+        shutil.rmtree(d, ignore_errors=True)
+
+
+# per entry point, the ignore_scaling flag of the first call of this process
+# that relied on the function's DEFAULT `options` argument (recorded for
+# replays: a default argument object lives as long as the process)
+FIRST_DEFAULT_CALL = {}
+ENTRY_POINTS = ("file_to_info", "image_to_info", "store")
+
+
+def _call_entry(via, nii, out, ig, kw, returned):
+    import nibabel
+    from neuroglancer_scripts import accessor as ngacc
+    from neuroglancer_scripts import volume_reader
+    if via == "file_to_info":
+        return volume_reader.volume_file_to_info(nii, out, ignore_scaling=ig, **kw)
+    img = nibabel.load(nii)
+    if via == "store":
+        return volume_reader.store_nibabel_image_to_fullres_info(
+            img, ngacc.get_accessor_for_url(out), ignore_scaling=ig, **kw)
+    returned.append(volume_reader.nibabel_image_to_info(img, ignore_scaling=ig, **kw))
+    return 0
+
+
+def prime_default_options(work, first):
+    """replay aid: repeat, on a one-voxel file, the recorded first
+    default-options call of each entry point of the original process"""
+    import nibabel
+    d = tempfile.mkdtemp(prefix="prime_", dir=work)
+    try:
+        nii = os.path.join(d, "one.nii")
+        nibabel.save(nibabel.Nifti1Image(np.zeros((1, 1, 1), dtype=np.uint8), np.eye(4)), nii)
+        for via, ig in first.items():
+            if via not in FIRST_DEFAULT_CALL:
+                FIRST_DEFAULT_CALL[via] = bool(ig)
+                out = os.path.join(d, "out_" + via)
+                os.makedirs(out)
+                vd.run_main(lambda _a, via=via, out=out, ig=ig: _call_entry(via, nii, out, bool(ig), {}, []),
+                            [], record=False)
+    finally:
+        shutil.rmtree(d, ignore_errors=True)
+
+
+def run_multifile_case(work, steps, mode):
+    """Several volume FILES described in ONE process through the function API.
+    mode "default": every call relies on the functions' default `options`
+    argument (none passed);  mode "shared": ONE caller-owned dictionary is passed
+    as `options` to every call of the history.
+    steps: [{"plan", "data", "ignore": bool, "via": "file_to_info" | "image_to_info" | "store"}]
+    Every call gets its own file, its own destination and its own
+    ignore_scaling argument, and is recorded with the facts of ITS file under
+    ITS argument.  Returns (case, [res per step])."""
+    d = tempfile.mkdtemp(prefix="multi_", dir=work)
+    try:
+        vmin = min(min(st["plan"]["vs"]) for st in steps)
+        decls = tuple(declared_unit(st["plan"]) for st in steps)
+        shared = {}
+        kw = {"options": shared} if mode == "shared" else {}
+        recs, results = [], []
+        for k, st in enumerate(steps):
+            plan = dict(st["plan"], ignore_scaling=bool(st["ignore"]))
+            plan.pop("sharding", None)              # the options are those of the mode
+            nii = os.path.join(d, "f%d.nii" % k)
+            build_nifti(nii, plan, st["data"])
+            dfacts, ffacts = data_facts(nii, plan["ignore_scaling"])
+            out = os.path.join(d, "out%d" % k)
+            os.makedirs(out)
+            ig = plan["ignore_scaling"]
+            if mode == "default":
+                FIRST_DEFAULT_CALL.setdefault(st["via"], ig)
+            returned = []
+            res = vd.run_main(lambda _a, st=st, nii=nii, out=out, ig=ig, returned=returned:
+                              _call_entry(st["via"], nii, out, ig, kw, returned), [], record=False)
+            if st["via"] == "image_to_info":
+                try:
+                    fi, jt = returned[0][0], returned[0][1]
+                    o = observe(json.loads(fi), [[float(x) for x in row] for row in jt], vmin, decls)
+                except Exception as e:
+                    o = {"ok": False, "why": type(e).__name__}
+            else:
+                o = read_pair(out, vmin, decls)
+            o["src"] = st["via"]
+            o["req"] = req_of(None)
+            recs.append({"vol": vol_record(plan, dfacts, ffacts), "req": req_of(None),
+                         "ignore": ig, "via": st["via"], "replaced": True, "options": mode,
                          "run": {"outcome": res["outcome"], "exit": res["exit"]}, "obs": o})
             results.append(res)
         return {"kind": "history", "steps": recs}, results
